@@ -9,7 +9,8 @@ import zlib
 from engine import SPEC, gen_states, pool_map
 from readers import bgzf_blocks, join_lines, load_pickle, read_text, run_cli, split_tag, write_text, workdir
 
-GRAPHS = {"a": json.load(open(os.path.join(SPEC, "data", "sort_graph.json"))), "b": json.load(open(os.path.join(SPEC, "data", "sort_graph_b.json")))}
+GRAPHS = {"a": json.load(open(os.path.join(SPEC, "data", "sort_graph.json"))), "b": json.load(open(os.path.join(SPEC, "data", "sort_graph_b.json"))),
+          "c": json.load(open(os.path.join(SPEC, "data", "sort_graph_c.json")))}      # c = a with every BO + 1000 (order_gfa numbers BO across chromosomes)
 GRAPH = GRAPHS["a"]      # node ids and lengths are the same in both taggings
 POOL = json.load(open(os.path.join(SPEC, "data", "sort_pool.json")))
 
@@ -174,14 +175,14 @@ def run_mode(ctx, mode):
             jobs.append((f"s{tag}{int(bg)}", [rnd.choice(pool) for _ in range(6)], mode, "plain", bg, False, 0, 150))
     # the same node ids under two different taggings, alternating within each worker process (state kept between
     # calls - caches keyed by node id, mutable defaults - would show up as values of the other graph)
-    jobs = [j + (("a", "b")[k % 2],) for k, j in enumerate(jobs)]
+    jobs = [j + (("a", "b", "c")[k % 3],) for k, j in enumerate(jobs)]
     cases = pool_map(run_sort_case, jobs, chunk=8)
     ctx.evaluations += len(cases)
     for c in cases:
         if len(c["file"]) >= 2:
             ctx.nontrivial.add(json.dumps(c["file"], sort_keys=True) + str(c["cfg"]))
     verdicts = {}
-    for variant, fname in (("a", "data/sort_graph.json"), ("b", "data/sort_graph_b.json")):
+    for variant, fname in (("a", "data/sort_graph.json"), ("b", "data/sort_graph_b.json"), ("c", "data/sort_graph_c.json")):
         verdicts.update(ctx.validate("Check_Sort", [c for c in cases if c["cfg"]["graph"] == variant], cfg="Check_Sort.cfg", env={"SORT_GRAPH": fname}))
     for c in cases:
         v = verdicts[c["id"]]
